@@ -2,6 +2,7 @@
 import os
 import tempfile
 import common as cm
+import cmdlayer
 import gen
 import anno
 import samgen
@@ -209,6 +210,8 @@ def post_go(ctx, cases, obs):
 
 def extra(ctx, obl, cases, obs):
     """cmd-level behaviour through the built binary."""
+    n = 1 if ctx.tier == "quick" else 8
+    _state["layer_runs"] = cmdlayer.sam_layer(ctx, "toma", n) + cmdlayer.sam_layer(ctx, "topa", n) + cmdlayer.variants_layer(ctx, n) + cmdlayer.sam_layer(ctx, "variants", n)
     binp = cm.build_binary(ctx.log)
     runs = 0
     if not binp:
